@@ -85,6 +85,18 @@ def run(ck):
                 ck.ok("R2.gates", s.where(), "range construction requires %s" % txt)
             else:
                 ck.violation("R2.gates", "R2|parseInit|range-needs|%s" % txt.replace(" ", "_"), s.where(), "the [offset, last_pos] range is built without '%s' established (facts: %s)" % (txt, s.fact_keys()))
+    ck.rule("R2b parseInit: the list item is not NUL-terminated at flen (the rest of the header value follows it), so the '-' located by strchr(field, '-') counts only if it "
+            "lies inside this item: the dash pointer is advanced / read past only with `dash - field < flen` established true (otherwise a dash-less item such as "
+            "\"55\" in \"bytes=55, 7-8\" borrows the dash of a later item and is accepted as \"55-\")")
+    fld, flen = fn.params[0]["d"], fn.params[1]["d"]
+    dash_defs = [n for n, ds in ck.local_defs(fn).items() if any(E.m_calls("strchr")(d) and E.m_is_ref(fld)(E.strip(d)["a"][0]) and E.const(E.strip(d)["a"][1]) == 45 for d in ds)]
+    ck.need(len(dash_defs) == 1, "C28: parseInit has no local holding strchr(field, '-')")
+    DASH = dash_defs[0]
+    inside = E.m_cmp("<", E.M(lambda t: E.strip(t).get("k") == "bin" and E.strip(t).get("op") == "-" and E.m_is_ref(DASH)(E.strip(t)["l"]) and E.m_is_ref(fld)(E.strip(t)["r"]),
+                              "(%s - %s)" % (DASH, fld)), E.m_is_ref(flen))
+    ck.require_fact("R2b.dash-inside-item", ck.flow(fn, track_history=False), lambda ev: ev.get("e") == "asg" and E.m_is_ref(DASH)(ev.get("lhs")) and ev.get("op") in ("++", "+="),
+                    inside, True, "++%s" % DASH, why="(a '-' belonging to a later list item would be used)")
+
     # suffix branch
     resp_edges = ck.trigger_edges(fn, E.m_calls("httpHeaderParseOffset"), False)
     ck.need(len(resp_edges) >= 3, "C28: expected 3 failing-parse edges, found %d" % len(resp_edges))
